@@ -56,6 +56,8 @@ def _gen_tx(r, k):
 
 def _ntx(r, tier):
     big = 2049 if tier == "thorough" else 300
+    if r.chance(0.004 if tier == "thorough" else 0.0015):
+        return r.pick([4095, 4096, 4097])   # the transaction count itself across 0xfff / 0x1000
     return r.weighted([(1, 3), (2, 3), (3, 3), (4, 2), (5, 2), (7, 2), (8, 2), (9, 1), (15, 1), (16, 1), (17, 1), (31, 1), (33, 1),
                        (r.between(1, 40), 8), (r.pick([63, 64, 65, 127, 128, 129, 255, 257]), 1), (r.between(40, big), 1)])
 
@@ -80,6 +82,15 @@ def gen_plan(rng, tier, index, config=None):
                 for t in txs:
                     t["ins"] = t["ins"][:1]
                     t["outs"] = t["outs"][:1]
+            elif r.chance(0.12):
+                # one transaction with a script across a compact-size boundary (lengths as hex of a repeated byte keep the
+                # plan small: the executor expands "rep:<n>")
+                ln = r.pick([0xFC, 0xFD, 0xFFF, 0x1000, 0x1001, 0x7FFF, 0xFFFF, 0x10000])
+                t = txs[r.below(n)]
+                if r.chance(0.5) or not t["outs"]:
+                    t["ins"][0]["script"] = "rep:%d" % ln
+                else:
+                    t["outs"][0]["script"] = "rep:%d" % ln
             steps.append({"op": "mine", "id": "b%d" % nblocks, "txs": txs,
                           "hdr": {"version": r.pick([1, 2, 0x20000000]), "prev": r.bytes(32).hex(), "time": r.bits(32),
                                   "bits": r.pick([0x1d00ffff, 0x207fffff, r.bits(32)]), "nonce": r.bits(32)}})
@@ -133,11 +144,17 @@ def gen_plan(rng, tier, index, config=None):
 # execution
 # ---------------------------------------------------------------------------------------------
 
+def _scr(x):
+    if x.startswith("rep:"):
+        return b"\x6a" * int(x[4:])
+    return bytes.fromhex(x)
+
+
 def _mtx(t):
     return {"version": t["version"],
-            "ins": [{"prev": bytes.fromhex(i["prev"]), "idx": i["idx"], "script": bytes.fromhex(i["script"]), "seq": i["seq"],
+            "ins": [{"prev": bytes.fromhex(i["prev"]), "idx": i["idx"], "script": _scr(i["script"]), "seq": i["seq"],
                      "witness": [bytes.fromhex(w) for w in i["witness"]]} for i in t["ins"]],
-            "outs": [{"value": o["value"], "script": bytes.fromhex(o["script"])} for o in t["outs"]],
+            "outs": [{"value": o["value"], "script": _scr(o["script"])} for o in t["outs"]],
             "locktime": t["locktime"]}
 
 
